@@ -1584,7 +1584,7 @@ class HealSparseMap(object):
             sentinel_out = hpg.UNSEEN
             # We should avoid integers
             for key, value in self._sparse_map.dtype.fields.items():
-                if issubclass(self._sparse_map[key].dtype.type, np.integer):
+                if issubclass(self._sparse_map[key].dtype.type, (np.integer, np.bool_)):
                     dtype.append((key, np.float64))
                 else:
                     dtype.append((key, value[0]))
